@@ -52,6 +52,19 @@ ClassVerdict(o, c) ==
   /\ c.eqPrime
   /\ o.cl => (c.rCanon /\ (c.k8 * c.tA + c.tR) % 8 = 0)
 
+(***************************************************************************)
+(* Option validation of Sign / VerifyWithOptions (property C02): a         *)
+(* signature is produced only when none of these holds.                    *)
+(*   hash in {"none", "sha512", "other"}; voNil: no verify options given    *)
+(***************************************************************************)
+OptionError(hash, ctxLen, msgLen, privLen, addRand, entropyFails, voNil, vo) ==
+  \/ (~voNil /\ Incompatible(vo))
+  \/ ctxLen > 255
+  \/ hash = "other"
+  \/ (hash = "sha512" /\ msgLen # 64)
+  \/ privLen # 64
+  \/ (addRand /\ entropyFails)
+
 \* the four presets of the package
 Default == [soA |-> FALSE, soR |-> TRUE, ncA |-> FALSE, ncR |-> FALSE, cl |-> FALSE]
 StdLib == [soA |-> TRUE, soR |-> TRUE, ncA |-> TRUE, ncR |-> FALSE, cl |-> TRUE]
